@@ -92,7 +92,7 @@ def visit(expr, previsitor, postvisitor=None):
         for child in expr:
             visit(child, previsitor, postvisitor)
 
-    elif getattr(expr, 'is_keyword_arg', False):
+    elif getattr(type(expr), 'is_keyword_arg', False):
         # A keyword argument is not an expression itself, but it holds one.
         visit(expr.expr, previsitor, postvisitor)
 
